@@ -32,13 +32,14 @@ Record facts := {
   f_clone_resets : bool;         (* clone() gives the clone fresh _inst_stack/_instances/_crossrefs/comment_positions *)
   f_except_restores : bool;      (* get_model_from_str: `except: self._restore_user_attr_methods(); raise` *)
   f_end_restores : bool;         (* _end_model_construction restores the user classes *)
-  f_restore_on_primitive : bool; (* get_model_from_str restores when the model is a primitive (no _tx_parser) *)
+  f_restore_on_primitive : bool; (* get_model_from_str restores when the model is an int / float / str / bool *)
+  f_restore_on_immutable : bool; (* ... and when it is any other value that cannot carry _tx_parser (Decimal, tuple, ...) *)
   f_restore_guarded : bool       (* a parser restores the user classes only if it has replaced them (and only once) *)
 }.
 
 Definition good (f : facts) : bool :=
   f_clear_in_finally f && f_loads_use_clone f && f_clone_resets f && f_except_restores f
-  && f_end_restores f && f_restore_on_primitive f && f_restore_guarded f.
+  && f_end_restores f && f_restore_on_primitive f && f_restore_on_immutable f && f_restore_guarded f.
 
 Record cfg := {
   c_gram : nat;            (* grammar *)
@@ -93,7 +94,9 @@ Inductive lkind :=
 | LBeforeEnd     (* failure after instrumentation, before _end_model_construction (unknown reference, ...) *)
 | LAfterEnd      (* failure after _end_model_construction (user __init__, object processor) *)
 | LModelProc     (* get_model_from_str returned; a model processor raised *)
-| LOkPrim        (* success, the model is a primitive Python value *)
+| LOkPrim        (* success, the model is a primitive Python value (int, float, str, bool) *)
+| LOkImm         (* success, the model is another value that cannot carry attributes (e.g. a match rule converted
+                    by an object processor to Decimal / tuple / frozenset / list) *)
 | LOk.           (* success *)
 Record lres := { l_kind : lkind; l_dump : nat; l_leak : list nat (* storage entries left, per user class *); l_files : list nat }.
 
@@ -168,6 +171,7 @@ Section Machine.
     let ex := when (f_except_restores F) restore_u in
     let en := when (f_end_restores F) restore_u in
     let pr := when (f_restore_on_primitive F) restore_u in
+    let im := when (f_restore_on_immutable F) restore_u in
     let unguarded := when (negb (f_restore_guarded F)) in
     match l_kind r with
     | LSyntax => unguarded ex                                        (* except path, nothing was replaced *)
@@ -176,12 +180,13 @@ Section Machine.
     | LAfterEnd => fun u => unguarded ex (en (replace_u u))          (* second restore by the same parser *)
     | LModelProc => fun u => en (replace_u u)
     | LOkPrim => fun u => pr (replace_u u)
+    | LOkImm => fun u => im (replace_u u)
     | LOk => fun u => en (replace_u u)
     end.
 
   Definition repo_effect (r : lres) (repo : list nat) : list nat :=
     match l_kind r with
-    | LOk | LOkPrim | LModelProc => union repo (l_files r)
+    | LOk | LOkPrim | LOkImm | LModelProc => union repo (l_files r)
     | _ => repo     (* a failing load removes exactly the models it added (those still in construction);
                        models cached by earlier loads stay *)
     end.
